@@ -194,6 +194,8 @@ def judge(case) -> Outcome:
     # short inputs: polynomial budget; longer generated inputs may legitimately expand to 2^k terms ('a*b*c*...', '(..)**3'),
     # so only a flat cap (orders of magnitude above anything the bounded generators need) guards termination there
     limit = 4000 + 60 * len(s) + 6 * len(s) ** 2 if len(s) <= 24 else 3_000_000
+    if case.get("long"):  # thousands of operands: ordering them is legitimately quadratic
+        limit = 3_000_000 + len(s) ** 2 // 5
     st.start(limit)
     try:
         if case.get("entry", "Formula") == "Formula":
@@ -221,9 +223,16 @@ def judge(case) -> Outcome:
             out.fail("c14.multistage_not_implemented", f"{s!r}: NotImplementedError {str(e)[:80]}")
         else:
             out.fail("c14.internal_exception", f"{s!r} cfg={cfg}: NotImplementedError: {str(e)[:100]}")
-    except RecursionError:
+    except RecursionError as e:
         n = st.stop()
-        out.fail("c14.internal_exception", f"{s!r} cfg={cfg}: RecursionError")
+        import traceback
+
+        tb = traceback.extract_tb(e.__traceback__)
+        if len(tb) > 500 and any(t.name == "format_expr" for t in tb) and sum(t.filename.endswith("/ast.py") for t in tb) > len(tb) // 2:
+            # finding K8: the standard library's unparser recurses once per nested operator of a Python fragment
+            out.fail("c14.deep_python_fragment", f"{s[:60]!r}.. ({len(s)} chars) cfg={cfg}: RecursionError from ast.unparse while normalising a Python fragment")
+        else:
+            out.fail("c14.internal_exception", f"{s[:200]!r} cfg={cfg}: RecursionError")
     except Exception as e:  # noqa: BLE001
         n = st.stop()
         import traceback
@@ -287,6 +296,22 @@ def gen_mutation(rng: random.Random, tier: str) -> dict:
             s.insert(i, rng.choice(list("()[]{}`'\"%~|+-*/:^.,0 1a\\") + ["**", "%in%"]))
     s = "".join(s)
     return {"s": s, **rand_cfg(rng)}
+
+
+# ---- very long and very deep inputs: the answer must still be a formula or the library's error (never RecursionError & co.)
+
+
+def gen_long(rng: random.Random, tier: str) -> dict:
+    n = rng.choice([300, 1100, 1100, 1600, 2600])
+    sep = rng.choice([" + ", " + ", "+", " : ", " - ", "*"]) if n <= 1100 else rng.choice([" + ", "+", " : ", " - "])
+    if sep == "*":
+        n = 12  # (a product of n operands denotes 2^n terms)
+    chain = sep.join(f"x{i}" for i in range(n))
+    tpl = rng.choice(["{c} z", "y ~ {c}", "y ~ offset ({c})", "{c} | w", "z {c}", "({c}) w", "{c}", "y ~ {c} ~ z", "f({c}) g", "{p}a{q}", "{p}a b{q}",
+                      "(a+b){e} c", "[ y ~ {c} ] ~ z", "{c} )", "( {c}", "`{c}` + `{c}", "{{{c}}} u"])
+    depth = rng.choice([200, 600, 1500])
+    s = tpl.format(c=chain, p="(" * depth, q=")" * depth, e="**1" * min(n, 1200))
+    return {"s": s, "long": True, **rand_cfg(rng)}
 
 
 # ---- disabled operators must be rejected (generator-rendered, so the operator is known to sit in operator position)
@@ -386,4 +411,5 @@ SUBS = {
     "fuzz": Sub(judge=judge, gen=gen_fuzz, quick=30000, thorough=1_500_000, min_decided=5000),
     "mutation": Sub(judge=judge, gen=gen_mutation, quick=15000, thorough=800_000, min_decided=3000),
     "flags": Sub(judge=judge_flags, gen=gen_flags, quick=3000, thorough=150_000, min_decided=500),
+    "long": Sub(judge=judge, gen=gen_long, quick=160, thorough=4000, min_decided=40),
 }
